@@ -158,6 +158,15 @@ def strliteral_transformer(repo, dialect_name):
            and m.funcs[node.func.id].cls is None]
       return c[0] if len(c) == 1 else None
     if isinstance(node.func, ast.Attribute):
+      if 'dialect' in (dotted(node.func.value) or ''):
+        # a method of the dialect object: the one THIS dialect's class has
+        dm = repo.by_name('dialects')
+        for eng_, cls_ in templates.dialect_classes(repo).items():
+          nm_, _ = templates.dialect_const(repo, cls_, 'Name')
+          if nm_ == dialect_name:
+            got = repo.lookup_method(dm, cls_, node.func.attr)
+            if got is not None:
+              return got
       c = [f for f in repo.method_index().get(node.func.attr, []) if f.module in mods]
       return c[0] if len(c) == 1 else None
     return None
